@@ -1,5 +1,5 @@
 """C02 — the score: which strings are compared at which effective block size, on every entry point (not the score value)."""
-from ..rules import effbs, blocksize, convert
+from ..rules import effbs, blocksize, convert, typestate
 
 EXPL = ("Decides (SA-EFFBS, dimension analysis over MIR): at every scorer call site whose operands are block hashes of hash objects "
         "(FuzzyHashCompareTarget::compare* relation-specific variants, FuzzyHashData::compare via compare_optimized_internal) the two "
@@ -9,12 +9,15 @@ EXPL = ("Decides (SA-EFFBS, dimension analysis over MIR): at every scorer call s
         "{(1,2)}; dispatchers call the matching variant with (self, other) in order; far -> constant 0; identical -> 100 before any "
         "scoring; a missing common substring short-circuits to 0 before the edit distance; below the capping border (4) the result is "
         "min(raw, cap), from the border upward the raw score; raw-score and cap formula trees equal the documented formulas "
-        "(SA-FORMULA); the string front end parses both sides as LongFuzzyHash and calls compare. NOT decided: the value of the edit "
+        "(SA-FORMULA); the string front end parses both sides as LongFuzzyHash and calls compare; the position arrays that the scorer reads "
+        "are built on cleared masks at every call site (SA-TYPESTATE: a re-used comparison target or the temporary arrays of "
+        "FuzzyHashData::compare never carry bits of another hash) and the views pair mask K with length K. NOT decided: the value of the edit "
         "distance (C08) and of the common-substring test (C09).")
 
 
 def run(ctx):
     cfgs = ["dbg", "rel"] if ctx.tier == "quick" else ["dbg", "rel", "unsafe_dbg", "unsafe", "strict_dbg", "unchecked", "nodef"]
+    ctx.progs(cfgs)  # build all configurations in parallel
     for c in cfgs:
         prog = ctx.prog(c)
         if c.endswith("dbg"):
@@ -25,6 +28,8 @@ def run(ctx):
         ctx.guard("C02", "cap", lambda: blocksize.score_cap(ctx, prog))
         ctx.guard("C02", "raw", lambda: blocksize.raw_score(ctx, prog))
         ctx.guard("C02", "relations", lambda: blocksize.relation_predicates(ctx, prog))
+        ctx.guard("C02", "typestate", lambda: typestate.clear_before_accumulate(ctx, prog))
+        ctx.guard("C02", "views", lambda: typestate.views_are_like_indexed(ctx, prog))
         if c not in ("nodef",):
             ctx.guard("C02", "easy", lambda: effbs.string_front_end(ctx, prog))
     return ctx.finish(EXPL, ["relation beliefs are read from configurations with debug assertions on (they are pruned in release MIR)", "edit distance and common-substring kernels are exact (C08/C09, not decided here)"])
